@@ -823,7 +823,7 @@ class Progress(JupyterMixin, RenderHook):
             task = self._tasks[task_id]
             completed_start = task.completed
 
-            if total is not None:
+            if total is not None and total != task.total:
                 task.total = total
                 task._reset()
             if advance is not None:
